@@ -317,7 +317,22 @@ type Scenario struct {
 }
 
 // Add registers a scenario owned by this worker for ExploreAll.
-func (c *Ctx) Add(sc Scenario) { c.scens = append(c.scens, sc) }
+func (c *Ctx) Add(sc Scenario) {
+	// replays find their scenario by name: names must be unique (worker-local check; VERIF_LISTNAMES=<prefix> dumps
+	// the names of every worker for an audit across workers)
+	for _, o := range c.scens {
+		if o.Name == sc.Name {
+			c.Infra("two scenarios share the name " + sc.Name)
+		}
+	}
+	if p := os.Getenv("VERIF_LISTNAMES"); p != "" {
+		if f, err := os.OpenFile(fmt.Sprintf("%s.%d", p, c.Worker), os.O_APPEND|os.O_CREATE|os.O_WRONLY, 0o644); err == nil {
+			fmt.Fprintln(f, sc.Name)
+			f.Close()
+		}
+	}
+	c.scens = append(c.scens, sc)
+}
 
 // ExploreAll runs iterative preemption bounding across all registered scenarios: every scenario at
 // bound 0, then every scenario at bound 1, ... so that a wall-clock cap only ever cuts the highest bound.
